@@ -443,22 +443,61 @@ def subMergeEff (n : Nat) (ex otherEx : Ex) (sm : SM) (res otherRes : Int) (s ot
 /-! ### `bytetree.Tree.Copy` and the query path on one stored column -/
 
 /-- a node of a `bytetree.Tree`: the node object, the `[]encoding.Sequence` array holding its
-    columns (`node.data`), and the columns -/
+    columns (`node.data`; `none` = a nil data slice, e.g. an inner node), and the columns -/
 structure TNode where
   obj : Nat
   dataArr : Nat
-  cols : List SV
+  data : Option (List SV)
   deriving Repr, DecidableEq, Inhabited
 
-/-- `Tree.Copy()`: `cpt := &node{key: e.target.key, data: e.target.data}` — a new node object
-    per node (`nObj`, `nObj+1`, …), the SAME `data` array and therefore the same sequences.
-    No byte buffer is allocated or written. -/
-def treeCopyEff (nObj : Nat) : List TNode → List TNode
-  | [] => []
-  | t :: ts => ⟨nObj, t.dataArr, t.cols⟩ :: treeCopyEff (nObj + 1) ts
+structure TreeEff where
+  nodes : List TNode
+  allocs : List Nat
+  writes : List Write
+  deriving Repr, DecidableEq, Inhabited
 
-/-- one source row of a scan for one output column: the memstore column (a stored sequence,
-    shared with the live memstore through `Tree.Copy`) and, if the key is also in the file,
+/-- the loop of `copyData` (bytetree.go, since /repo 63b81da): `n := copy(buf, seq); cp[i] =
+    buf[:n:n]; buf = buf[n:]` — every non-nil sequence is copied to the next free offset of the
+    node's buffer `b` and becomes a view with `cap = len`; a nil sequence stays nil -/
+def copyColsEff (b : Nat) : Nat → List SV → List SV × List Write
+  | _, [] => ([], [])
+  | off, s :: ss =>
+    match s.sl with
+    | none => (⟨none, s.hi⟩ :: (copyColsEff b off ss).1, (copyColsEff b off ss).2)
+    | some v =>
+      (⟨some ⟨b, off, v.len, v.len⟩, s.hi⟩ :: (copyColsEff b (off + v.len) ss).1,
+        ⟨b, off, v.len⟩ :: (copyColsEff b (off + v.len) ss).2)
+
+/-- `total` of `copyData`: the size of the node's buffer -/
+def colsTotal (cols : List SV) : Nat := (cols.map (·.len)).sum
+
+/-- `Tree.Copy()` since /repo 63b81da: `cpt := &node{key: e.target.key, data:
+    copyData(e.target.data)}` — a new node object per node (`nObj`, `nObj+1`, …); a nil data
+    slice stays nil; otherwise ONE fresh byte buffer per node (`make([]byte, total)`, ids `n`,
+    `n+1`, … in walk order) holding copies of all its sequences back to back, and a fresh
+    `[]Sequence` array (`nArr`, `nArr+1`, …). -/
+def treeCopyEff (nObj nArr n : Nat) : List TNode → TreeEff
+  | [] => ⟨[], [], []⟩
+  | t :: ts =>
+    match t.data with
+    | none =>
+        ⟨⟨nObj, t.dataArr, none⟩ :: (treeCopyEff (nObj + 1) nArr n ts).nodes,
+          (treeCopyEff (nObj + 1) nArr n ts).allocs, (treeCopyEff (nObj + 1) nArr n ts).writes⟩
+    | some cols =>
+        ⟨⟨nObj, nArr, some (copyColsEff n 0 cols).1⟩ :: (treeCopyEff (nObj + 1) (nArr + 1) (n + 1) ts).nodes,
+          colsTotal cols :: (treeCopyEff (nObj + 1) (nArr + 1) (n + 1) ts).allocs,
+          (copyColsEff n 0 cols).2 ++ (treeCopyEff (nObj + 1) (nArr + 1) (n + 1) ts).writes⟩
+
+/-- `Tree.Copy()` BEFORE /repo 63b81da (defect D9): `cpt := &node{key: e.target.key, data:
+    e.target.data}` — new node objects, but the SAME `data` array and therefore the same
+    sequences as the live tree; nothing allocated, nothing written. -/
+def treeCopyEffShared (nObj : Nat) : List TNode → List TNode
+  | [] => []
+  | t :: ts => ⟨nObj, t.dataArr, t.data⟩ :: treeCopyEffShared (nObj + 1) ts
+
+/-- one source row of a scan for one output column: the memstore column (a column of the
+    scan's memstore snapshot: since /repo 63b81da a private copy made by `Tree.Copy`, before
+    that the live memstore's stored sequence itself) and, if the key is also in the file,
     the file column: the scan reads the row into a buffer of its own (`make([]byte,
     rowLength)` + `io.ReadFull`) and `encoding.ReadSequence` re-slices the column out of it -/
 structure SrcRow where
